@@ -20,7 +20,8 @@ RULE = ("temperature: all 16 ordered pairs of {K, Cel, degF, degR} x every admis
         "prefix combinations, level addition/subtraction for every bel-type unit (same or mixed prefix), the documented "
         "examples verbatim, histories in which 2-3 level operands are built once and reused across 3-7 additions, "
         "subtractions, reads and conversions to the linear counterpart (every result expected from the operands as "
-        "constructed), 70% of the judged conversions repeated with an absolute or relative uncertainty attached (same value "
+        "constructed; `+=` / `-=` included and followed), every judged conversion with its target named in one of eight ways, "
+        "70% of the judged conversions repeated with an absolute or relative uncertainty attached (same value "
         "required), at the end rounds that open and close unit environments whose custom units name the built-in conversion "
         "classes (conversions inside, UNIT_TYPES compared before/after, samples of all judged streams and level sums re-run "
         "afterwards; the tables are re-extracted at the end of the run and must equal the generated ones), "
@@ -33,7 +34,16 @@ ASSUMPTIONS = [
     "degR's table magnitude 0.5555555555555556 stands for 5/9 (kernel-checked to be within 1e-15 of it)",
     "the direct B<->Np constant 1.151277918 is only required to invert (it differs from ln(10)/2 in the 5th digit)",
     "levels are compared for power ratios > 0; subtraction is judged for a - b >= 0.5 dB (cancellation)",
-    "the unit parser is C03's: an expression is used only if BaseUnits(expr) reads it as intended",
+    "unit tokens are generated only if, by the tables alone, they denote the intended unit (the parser is not consulted)",
+    "every judged conversion names its target in one of eight ways (string, BaseUnits, dict, Quantity of magnitude 1 or tm, "
+    "Unit().attr, Unit(v), tm*Unit(v)); for Quantity targets the expected value is the documented one divided by tm and "
+    "value() (which takes no Quantity) is not called",
+    "level histories follow `a += b` / `a -= b` as a = a + b / a = a - b; a subtraction whose operands have come closer "
+    "than 0.5 dB is dropped before running; the absolute tolerance grows by 1e-11/prefix per augmented step",
+    "on every stream, a to() that raises must leave value and units as they were (impl-only oracle: the code assigns only after "
+    "a successful conversion); "
+    "impl != model on the model-only 'mixed' stream (arbitrary pairs outside the property's domain) is counted and noted, "
+    "never a failure; unit environments are closed in a finally block",
     "the single-operation add/sub stream builds fresh operands; the history stream reuses operands and judges repeated "
     "results and the operands' later readings/conversions (values only; uncertainty and aliasing are C07/C08's)",
     "pairs of logarithmic units that are not documented/table pairs (e.g. dBA<->dBuA, dBm<->dBSWL) are refused by the code; "
@@ -249,13 +259,20 @@ def run_conv_cases(ctx, cat, cases):
     usable = []
     for c in cases:
         c["eu"], c["ev"] = U.render_items(c["iu"]), U.render_items(c["iv"])
-        if U.parsed_as_expected(cat, c["eu"], c["iu"]) and U.parsed_as_expected(cat, c["ev"], c["iv"]):
+        if U.reads_as_intended(cat, c["iu"]) and U.reads_as_intended(cat, c["iv"]):
             usable.append(c)
         else:
-            ctx.count("skipped.parser-reads-differently")
+            ctx.count("skipped.token-ambiguous-in-the-grammar")
     reqs = []
     for c in usable:
-        reqs.append({"k": "conv", "x": U.mag_req(c["x"]), "u": cat.req_items(c["iu"]), "v": cat.req_items(c["iv"])})
+        if c["spec"] is not None and "form" not in c:
+            # the target unit named in every supported way (string, BaseUnits, dict, Quantity, Unit().attr, Unit(v), tm*Unit(v))
+            c["form"] = ctx.rng.choice(C4.FORMS)
+            c["tm"] = ctx.rng.choice(C4.TARGET_MAGS) if c["form"] in ("qm", "scaled-unit") else \
+                (1.0 if c["form"] in C4.QUANTITY_FORMS else None)
+        c.setdefault("form", "str")
+        c.setdefault("tm", None)
+        reqs.append(C4.conv_req(cat, c))
         sr = spec_request(cat, c)
         c["has_spec_req"] = sr is not None
         if sr is not None:
@@ -264,44 +281,68 @@ def run_conv_cases(ctx, cat, cases):
     for c in usable:
         r = next(res)
         rs = next(res) if c["has_spec_req"] else None
+        qform = c["form"] in C4.QUANTITY_FORMS
+        tm = c["tm"] if qform else 1.0
+        how = "" if c["form"] == "str" else " (target given as %s%s)" % (c["form"], " of magnitude %r" % c["tm"] if qform else "")
         replay = {"stream": c["stream"], "x": c["x"], "u": c["eu"], "v": c["ev"], "iu": c["iu"], "iv": c["iv"],
-                  "spec": [str(t) for t in c["spec"]] if c["spec"] else None}
+                  "form": c["form"], "tm": c["tm"], "spec": [str(t) for t in c["spec"]] if c["spec"] else None}
         ctx.count("stream." + c["stream"])
-        ctx.case("%s|%s|%r" % (c["eu"], c["ev"], c["x"]), c["eu"] != c["ev"],
-                 {"x": c["x"], "u": c["eu"], "v": c["ev"]} if c["stream"] in ("temp", "linear->level") else None)
+        ctx.count("form." + c["form"])
+        ctx.case("%s|%s|%r|%s|%r" % (c["eu"], c["ev"], c["x"], c["form"], c["tm"]), c["eu"] != c["ev"],
+                 {"x": c["x"], "u": c["eu"], "v": c["ev"], "form": c["form"]} if c["stream"] in ("temp", "linear->level") else None)
         if "ok" not in r or (rs is not None and "ok" not in rs):
             ctx.disagreement(c["stream"], replay, "driver error %s %s" % (r, rs))
             continue
         imp = C4.run_impl(c, cat)
         if "init" in imp:
-            ctx.disagreement(c["stream"], replay, "Quantity() construction failed: %s" % imp["init"])
+            if imp["init"].split(":")[-1] in C4.FLOAT_EXC:
+                ctx.count("unjudged.float-exception-in-construction")
+            else:
+                ctx.disagreement(c["stream"], replay, "Quantity() construction failed: %s" % imp["init"])
             continue
         m = r["ok"]
+        mto = m["toq"] if qform else m["to"]
+        has_value = imp["value"] != "n/a"
         # ---- impl vs model
         mv = m["value"]
-        m_ok, i_ok = "ok" in mv, imp["value"] != "err"
+        m_ok, i_ok = "ok" in mv, imp["value"] not in ("err", "n/a")
         rtol_m, atol_m = (1e-9, 0.0) if c["spec"] is None else tolerance(cat, c)
         det = None
-        if m_ok != i_ok:
+        if has_value and m_ok != i_ok:
             det = "value(): impl %s, model %s" % (imp["value"] if i_ok else "raises " + imp.get("value_exc", ""), mv)
-        elif m_ok and U.in_float_range(imp["value"]) and not U.close(imp["value"], U.mag_back(mv["ok"]), rtol_m, atol_m):
+        elif has_value and m_ok and U.in_float_range(imp["value"]) and not U.close(imp["value"], U.mag_back(mv["ok"]), rtol_m, atol_m):
             det = "value(): impl %r, model %r" % (imp["value"], U.mag_back(mv["ok"]))
-        elif m["to"]["ok"] != imp["to"]:
-            det = "to(): impl ok=%s, model ok=%s" % (imp["to"], m["to"]["ok"])
-        elif m["to"]["tag"] == 0 and imp["after"] != imp["before"]:
+        elif mto["ok"] != imp["to"]:
+            det = "to()%s: impl ok=%s, model ok=%s" % (how, imp["to"], mto["ok"])
+        elif mto["ok"] and U.in_float_range(imp["after_val"]) and \
+                not U.close(imp["after_val"], U.mag_back(mto["val"]), rtol_m, atol_m / abs(tm)):
+            det = "state after to()%s: impl %r, model %r" % (how, imp["after_val"], U.mag_back(mto["val"]))
+        elif mto["tag"] == 0 and imp["after"] != imp["before"]:
             det = "model keeps the state, impl changed it: %r -> %r" % (imp["before"], imp["after"])
-        elif m["to"]["tag"] == 1 and imp["after_units"] != m["to"]["units"]:
-            det = "units after to(): impl %r, model %r" % (imp["after_units"], m["to"]["units"])
-        if det:
+        elif mto["tag"] == 1 and imp["after_units"] != mto["units"]:
+            det = "units after to(): impl %r, model %r" % (imp["after_units"], mto["units"])
+        if det and c["spec"] is None:
+            # pairs outside the property's domain (arbitrary mixtures): counted and noted, never failing the check
+            ctx.count("out-of-domain.model-differs")
+            if len(ctx.notes) < 20:
+                ctx.notes.append("outside the property's domain, impl != model (not judged): %s -> %s: %s" % (c["eu"], c["ev"], det))
+        elif det:
             ctx.disagreement(c["stream"], replay, det)
         # ---- impl vs spec
         sp = c["spec"]
+        if not imp["to"] and (imp["after"] != imp["before"] or imp["mid"] != imp["before"]):
+            # whatever the pair: a to() that raises must leave the quantity as it was, otherwise every later
+            # (documented) conversion of that object starts from the wrong units
+            ctx.violation("refused-to:state-changed",
+                          "%s -> %s%s is refused (%s) but the quantity changed: %r -> %r" %
+                          (c["eu"], c["ev"], how, imp.get("to_exc"), imp["before"], imp["after"]), replay)
+            continue
         if sp is None:
             continue
-        if not i_ok or not imp["to"]:
+        if (has_value and not i_ok) or not imp["to"]:
             ctx.violation("%s:refused:%s->%s" % (c["stream"], c["iu"][0][1], c["iv"][0][1]),
-                          "%s -> %s of %r is refused (%s) although the pair is in the property's domain" %
-                          (c["eu"], c["ev"], c["x"], imp.get("value_exc") or imp.get("to_exc")), replay)
+                          "%s -> %s of %r%s is refused (%s) although the pair is in the property's domain" %
+                          (c["eu"], c["ev"], c["x"], how, imp.get("value_exc") or imp.get("to_exc")), replay)
             continue
         rtol, atol = tolerance(cat, c)
         if sp[0] == "shift":
@@ -311,33 +352,42 @@ def run_conv_cases(ctx, cat, cases):
         else:
             want = U.as_list(U.mag_back(rs["ok"]))
         if want is not None:
-            if not U.in_float_range(want) or not U.in_float_range(imp["value"]):
+            want_to = [v / tm for v in want]
+            if not U.in_float_range(want) or not U.in_float_range(imp["after_val"]):
                 ctx.count("unjudged.float-range")
-            elif not U.close(imp["value"], want, rtol, atol):
+            elif has_value and not U.close(imp["value"], want, rtol, atol):
                 ctx.violation("%s:value:%s->%s" % (c["stream"], c["iu"][0][1], c["iv"][0][1]),
-                              "%s -> %s of %r: value() gives %r, the documented definition gives %r" %
-                              (c["eu"], c["ev"], c["x"], imp["value"], want), replay)
+                              "%s -> %s of %r%s: value() gives %r, the documented definition gives %r" %
+                              (c["eu"], c["ev"], c["x"], how, imp["value"], want), replay)
                 continue
-            elif not U.close(imp["after_val"], want, rtol, atol):
+            elif not U.close(imp["after_val"], want_to, rtol, atol / abs(tm)):
                 ctx.violation("%s:to-value:%s->%s" % (c["stream"], c["iu"][0][1], c["iv"][0][1]),
-                              "%s -> %s of %r: to() leaves %r, the documented definition gives %r" %
-                              (c["eu"], c["ev"], c["x"], imp["after_val"], want), replay)
+                              "%s -> %s of %r%s: to() leaves %r, the documented definition gives %r" %
+                              (c["eu"], c["ev"], c["x"], how, imp["after_val"], want_to), replay)
                 continue
+            elif imp["after"][1] != imp["target_expr"]:
+                ctx.violation("%s:to-units:%s->%s" % (c["stream"], c["iu"][0][1], c["iv"][0][1]),
+                              "%s -> %s%s: after to() the quantity reports units %r" % (c["eu"], c["ev"], how, imp["after"][1]), replay)
+                continue
+        cs = dict(c, form="str", tm=None)      # the remaining oracles name the target by its expression
+        base_val = imp["value"] if has_value else None
         # the value must not depend on whether the operand carries an uncertainty
-        if U.in_float_range(imp["value"]) and ctx.rng.random() < 0.7:
+        if ctx.rng.random() < 0.7:
             ctx.count("variant.with-uncertainty")
-            got = C4.uncertain_variant(cat, c, ctx.rng)
-            if got == "err" or not U.close(got[0], imp["value"], 1e-12, atol) or not U.close(got[1], imp["after_val"], 1e-12, atol):
+            plain = C4.run_impl(cs, cat) if base_val is None else imp
+            got = C4.uncertain_variant(cat, cs, ctx.rng)
+            if U.in_float_range(plain["value"]) and (got == "err" or not U.close(got[0], plain["value"], 1e-12, atol)
+                                                    or not U.close(got[1], plain["value"], 1e-12, atol)):
                 ctx.violation("%s:value-depends-on-uncertainty:%s->%s" % (c["stream"], c["iu"][0][1], c["iv"][0][1]),
                               "%s -> %s of %r: with an uncertainty attached value()/to() give %r, without it %r" %
-                              (c["eu"], c["ev"], c["x"], got, (imp["value"], imp["after_val"])), dict(replay, with_uncertainty=True))
+                              (c["eu"], c["ev"], c["x"], got, plain["value"]), dict(replay, with_uncertainty=True))
                 continue
         # reverse conversion returns the original value
         back = roundtrip(c)
         if back == "err":
             ctx.violation("%s:reverse-refused:%s->%s" % (c["stream"], c["iv"][0][1], c["iu"][0][1]),
                           "%s -> %s works but the reverse conversion is refused" % (c["eu"], c["ev"]), replay)
-        elif U.in_float_range(back) and U.in_float_range(imp["value"]):
+        elif U.in_float_range(back) and U.in_float_range(imp["after_val"]):
             xs = U.as_list(c["x"])
             rt_atol = 0.0
             if sp[0] == "temp":
@@ -435,10 +485,14 @@ def gen_level_history(cat, rng, units):
     for _ in range(rng.randint(3, 7)):
         r = rng.random()
         i, j = rng.sample(range(n), 2)
-        if r < 0.45:
+        if r < 0.35:
             ops.append(("add", i, j))
+        elif r < 0.5:
+            ops.append(("sub", min(i, j), max(i, j)))      # louder minus quieter (checked again when evaluated)
+        elif r < 0.6:
+            ops.append(("iadd", i, j))                     # a += b is a = a + b
         elif r < 0.65:
-            ops.append(("sub", min(i, j), max(i, j)))      # louder minus quieter (>= 1 dB apart)
+            ops.append(("isub", min(i, j), max(i, j)))
         elif r < 0.85:
             ops.append(("linear", i))
         else:
@@ -461,6 +515,12 @@ def run_level_history(s, operands, ops, lin_expr):
                 elif o[0] == "sub":
                     r = qs[o[1]] - qs[o[2]]
                     out.append((float(r.value()), r.units()))
+                elif o[0] == "iadd":
+                    qs[o[1]] += qs[o[2]]
+                    out.append((float(qs[o[1]].value()), qs[o[1]].units()))
+                elif o[0] == "isub":
+                    qs[o[1]] -= qs[o[2]]
+                    out.append((float(qs[o[1]].value()), qs[o[1]].units()))
                 elif o[0] == "linear":
                     out.append((float(qs[o[1]].value(lin_expr)), None))
                 else:
@@ -482,23 +542,51 @@ def level_history_stream(ctx, cat, count):
             ("BA", [("d", 87.0), ("d", 83.0)], [("sub", 0, 1), ("sub", 0, 1), ("read", 1)])]
     for _ in range(count):
         hist.append(gen_level_history(cat, rng, units))
-    reqs = []
-    for s, operands, ops in hist:
-        lin, k, ref = doc[s]
-        for o in ops:
-            if o[0] in ("add", "sub"):
-                (pa, a), (pb, b) = operands[o[1]], operands[o[2]]
-                reqs.append({"k": "level", "sub": o[0] == "sub", "u": cat.req_items([(pa, s, (1, 1))]),
+    # expected results, operation by operation (round k = the k-th operation of every history): the operands'
+    # expected current levels are followed through `+=` / `-=`; everything else leaves them as constructed
+    state = [{"cur": list(operands), "ops": [], "exps": [], "depth": 0} for _, operands, _ in hist]
+    for k in range(max(len(ops) for _, _, ops in hist)):
+        reqs, who = [], []
+        for h, (s, operands, ops) in enumerate(hist):
+            if k >= len(ops):
+                continue
+            o, st = ops[k], state[h]
+            lin, kk, ref = doc[s]
+            if o[0] in ("add", "sub", "iadd", "isub"):
+                (pa, a), (pb, b) = st["cur"][o[1]], st["cur"][o[2]]
+                minus = o[0] in ("sub", "isub")
+                if minus and a * pmag(cat, pa) * 10 - b * pmag(cat, pb) * 10 < 0.5:
+                    ctx.count("level-history.dropped-subtraction-below-0.5dB")
+                    continue
+                reqs.append({"k": "level", "sub": minus, "u": cat.req_items([(pa, s, (1, 1))]),
                              "v": cat.req_items([(pb, s, (1, 1))]), "x": U.f2b(a), "y": U.f2b(b)})
+                who.append((h, o))
             elif o[0] == "linear":
-                pa, a = operands[o[1]]
-                reqs.append({"k": "levelspec", "dir": "fromLevel", "kk": [F(k).numerator, F(k).denominator],
+                pa, a = st["cur"][o[1]]
+                reqs.append({"k": "levelspec", "dir": "fromLevel", "kk": [F(kk).numerator, F(kk).denominator],
                              "ref": [F(ref).numerator, F(ref).denominator], "p": U.f2b(pmag(cat, pa)), "lin": U.f2b(1.0),
                              "x": U.mag_req(a)})
+                who.append((h, o))
             else:
-                reqs.append({"k": "levelspec", "dir": "toNeper", "kk": [1, 1], "ref": [1, 1], "p": U.f2b(1.0), "lin": U.f2b(1.0),
-                             "x": U.mag_req(1.0)})      # placeholder keeps requests aligned with ops
-    res = iter(ctx.driver.ask_many(reqs))
+                p_, v_ = st["cur"][o[1]]
+                st["ops"].append(o)
+                st["exps"].append((v_, (p_ or "") + s, 1e-11 / pmag(cat, p_) * st["depth"]))
+        for (h, o), r in zip(who, ctx.driver.ask_many(reqs)):
+            st, s = state[h], hist[h][0]
+            if "ok" not in r:
+                st["broken"] = r
+                continue
+            if o[0] == "linear":
+                st["ops"].append(o)
+                st["exps"].append((U.mag_back(r["ok"]), None, 0.0))
+            else:
+                pa = st["cur"][o[1]][0]
+                want = U.b2f(r["ok"]["spec"])
+                if o[0] in ("iadd", "isub"):
+                    st["cur"][o[1]] = (pa, want)
+                    st["depth"] += 1
+                st["ops"].append(o)
+                st["exps"].append((want, (pa or "") + s, 1e-11 / pmag(cat, pa) * (1 + st["depth"])))
 
     def first_failure(s, operands, ops, exps, lin_expr):
         got = run_level_history(s, operands, ops, lin_expr)
@@ -506,33 +594,27 @@ def level_history_stream(ctx, cat, count):
             if g[0] == "err":
                 return i, "raises %s" % g[1]
             want, wunits, atol = e
+            if not (U.in_float_range(want) and U.in_float_range(g[0])):
+                continue
             if not U.close(g[0], want, 1e-9, atol):
                 return i, "gives %r, expected %r" % (g[0], want)
             if wunits is not None and g[1] != wunits:
                 return i, "reports units %r instead of %r" % (g[1], wunits)
         return None
 
-    for s, operands, ops in hist:
+    for (s, operands, _), st in zip(hist, state):
         lin, k, ref = doc[s]
         lin_expr = lin
-        rs = [next(res) for _ in ops]
+        ops, exps = st["ops"], st["exps"]
         ctx.count("stream.level-history")
         ctx.count("level-history.ops", len(ops))
         ctx.case("level-history|%s|%r|%r" % (s, operands, ops), True,
                  {"level_history": [s, operands, ops]} if len(ops) >= 4 else None)
-        if any("ok" not in r for r in rs):
-            ctx.disagreement("level-history", {"unit": s, "operands": operands, "ops": ops}, "driver error %s" % rs)
+        if "broken" in st:
+            ctx.disagreement("level-history", {"unit": s, "operands": operands, "ops": ops}, "driver error %s" % st["broken"])
             continue
-        exps = []
-        for o, r in zip(ops, rs):
-            if o[0] in ("add", "sub"):
-                pa = operands[o[1]][0]
-                exps.append((U.b2f(r["ok"]["spec"]), (pa or "") + s, 1e-11 / pmag(cat, pa)))
-            elif o[0] == "linear":
-                exps.append((U.mag_back(r["ok"]), None, 0.0))
-            else:
-                p, v = operands[o[1]]
-                exps.append((v, (p or "") + s, 0.0))
+        if not ops:
+            continue
         f = first_failure(s, operands, ops, exps, lin_expr)
         if f is None:
             continue
@@ -543,7 +625,8 @@ def level_history_stream(ctx, cat, count):
                 return False
             ff = first_failure(s, operands, [c[0] for c in cand], [c[1] for c in cand], lin_expr)
             return ff is not None and ff[0] == len(cand) - 1
-        small = shrink_list(pairs, fails, max_steps=40) if len(ctx.violations) < 3 else pairs
+        pure = all(c[0][0] not in ("iadd", "isub") for c in pairs)
+        small = shrink_list(pairs, fails, max_steps=40) if len(ctx.violations) < 3 and pure else pairs
         ops_small = [c[0] for c in small]
         ff = first_failure(s, operands, ops_small, [c[1] for c in small], lin_expr) or f
         names = ["%r %s%s" % (v, p or "", s) for p, v in operands]
@@ -605,7 +688,11 @@ def env_class_history(ctx, cat, cases, rounds):
 def tables_still_as_generated(ctx):
     """the facts proved about the regenerated tables are about the tables at the START of the run: they must
     still be the tables at its end"""
-    now = U.render_c05_tables(U.extract_c05_tables())
+    try:
+        now = U.render_c05_tables(U.extract_c05_tables())
+    except Exception as e:      # extraction itself failed: already a broken translator obligation, nothing to compare
+        ctx.notes.append("tables could not be re-extracted at the end of the run: %r" % (e,))
+        return
     path = U.GEN / "C05Tables.lean"
     if path.read_text() != now:
         ctx.violation("tables:changed-during-run",
